@@ -96,6 +96,11 @@ func VerifC42DescribeState(s map[string][]byte) []string {
 // VerifC42Tripperware builds the frontend tripperware with the product's default query-range settings
 // (cmd/thanos/query_frontend.go) and the given split interval; cache == nil leaves the results cache out.
 func VerifC42Tripperware(cache *VerifC42Cache, split time.Duration, down http.RoundTripper) (http.RoundTripper, error) {
+	return VerifC42TripperwareAlign(cache, split, true, down)
+}
+
+// VerifC42TripperwareAlign is VerifC42Tripperware with --query-range.align-range-with-step given.
+func VerifC42TripperwareAlign(cache *VerifC42Cache, split time.Duration, align bool, down http.RoundTripper) (http.RoundTripper, error) {
 	limits := func() *cortexvalidation.Limits {
 		return &cortexvalidation.Limits{MaxQueryParallelism: 14, MaxCacheFreshness: prommodel.Duration(time.Minute)}
 	}
@@ -103,7 +108,7 @@ func VerifC42Tripperware(cache *VerifC42Cache, split time.Duration, down http.Ro
 		CortexHandlerConfig: &transport.HandlerConfig{},
 		QueryRangeConfig: QueryRangeConfig{
 			PartialResponseStrategy: true,
-			AlignRangeWithStep:      true,
+			AlignRangeWithStep:      align,
 			RequestDownsampled:      true,
 			SplitQueriesByInterval:  split,
 			MaxRetries:              5,
